@@ -126,6 +126,14 @@ type SeqOut = Result<(Vec<u64>, u64, Vec<Ev>, u64), String>;
 fn seq_history_inner(plan: &SeqPlan, open_call: &AtomicU64) -> SeqOut {
     let sh = StreamShared::new(1);
     sh.set_fuel(Some(0));
+    // in half of the histories the stream answers every third entry or so with an I/O error (of
+    // varying kind): the entry was handed over all the same, nothing else may change
+    if plan.capacity % 2 == 1 || plan.rounds.len() % 2 == 0 {
+        sh.set_script(|k| match k {
+            vcommon::stream::EntryKind::Id(id) if Fnv::new().u64(*id).finish() % 3 == 0 => vcommon::stream::Outcome::Io,
+            _ => vcommon::stream::Outcome::Ok,
+        });
+    }
     let (q, handle, counts) = build(&sh, plan.capacity, plan.flush_us);
     let c = plan.capacity;
     let mut ring: VecDeque<u64> = VecDeque::new();
@@ -227,6 +235,10 @@ struct ConcPlan {
     /// 0 = stalled until producers finish, 1 = slow, 2 = free running
     writer: u8,
     flush_us: u64,
+    /// per mille of entries for which the stream reports an I/O error (they still count as handed over)
+    err_pm: u64,
+    /// per mille of appends after which the producer also requests a flush (the future is not awaited)
+    flush_pm: u64,
     seed: u64,
 }
 
@@ -314,8 +326,16 @@ fn conc_inner(plan: &ConcPlan, open_calls: &Arc<AtomicU64>) -> (Vec<(u64, u64, u
         1 => sh.delay_per_mille.store(900, Ordering::Relaxed),
         _ => {}
     }
+    if plan.err_pm > 0 {
+        let pm = plan.err_pm;
+        sh.set_script(move |k| match k {
+            vcommon::stream::EntryKind::Id(id) if Fnv::new().u64(*id).finish() % 1000 < pm => vcommon::stream::Outcome::Io,
+            _ => vcommon::stream::Outcome::Ok,
+        });
+    }
     let (q, handle, counts) = build(&sh, plan.capacity, plan.flush_us);
     let barrier = Arc::new(Barrier::new(plan.producers as usize));
+    let flush_pm = plan.flush_pm;
     let mut threads = vec![];
     for prod in 0..plan.producers {
         let q = q.clone();
@@ -336,6 +356,9 @@ fn conc_inner(plan: &ConcPlan, open_calls: &Arc<AtomicU64>) -> (Vec<(u64, u64, u
                 vcommon::sync::progress_tick();
                 oc.fetch_sub(1, Ordering::SeqCst);
                 calls.push((id, call, ret));
+                if rng.below(1000) < flush_pm {
+                    drop(q.flush_async()); // the request stays pending with the writer
+                }
                 if rng.below(16) == 0 {
                     std::thread::yield_now();
                 }
@@ -363,6 +386,8 @@ fn gen_conc_plan(rng: &mut Rng, thorough: bool) -> ConcPlan {
         per: (1 + rng.below(if thorough { 3000 } else { 800 })) as u32,
         writer: rng.below(3) as u8,
         flush_us: *rng.pick(&[1u64, 100, 5000, 50_000]),
+        err_pm: *rng.pick(&[0u64, 0, 100, 500]),
+        flush_pm: *rng.pick(&[0u64, 0, 5, 100]),
         seed: rng.next_u64(),
     }
 }
@@ -423,7 +448,7 @@ fn tiny_main(args: &Args, rep: &Report) {
         let plan = SeqPlan { capacity: 1 + (v as usize / 2) % 2, rounds: vec![(3, 1), (2, 0), (1, 2)], flush_us: 1 };
         seq_history(&plan, rep)
     } else {
-        let plan = ConcPlan { capacity: 1 + (v as usize / 2) % 2, producers: 2, per: 3, writer: (v % 3) as u8, flush_us: 1, seed: args.seed };
+        let plan = ConcPlan { capacity: 1 + (v as usize / 2) % 2, producers: 2, per: 3, writer: (v % 3) as u8, flush_us: 1, err_pm: if v % 4 == 1 { 500 } else { 0 }, flush_pm: if v % 2 == 0 { 300 } else { 0 }, seed: args.seed };
         conc_history(&plan, rep)
     };
     if let Some(sig) = sig {
